@@ -186,6 +186,47 @@ def mirror_slips(repo: Repo, prefixes: Iterable[str]):
     return n, hits
 
 
+def duplicated_statements(repo: Repo, prefixes: Iterable[str]):
+    """The same simple statement twice in a row, where running it a second
+    time cannot change anything (an assignment / set update whose right
+    side does not read what it writes): the second copy was meant to be
+    the sibling (`.left` then `.right`)."""
+    n = 0
+    hits = []
+    for m in repo.modules.values():
+        if not m.name.startswith(tuple(prefixes)):
+            continue
+        for f in repo._funcs_of(m):
+            for blk in ast.walk(f.node):
+                for fld in ('body', 'orelse', 'finalbody'):
+                    body = getattr(blk, fld, None)
+                    if not isinstance(body, list):
+                        continue
+                    for s1, s2 in zip(body, body[1:]):
+                        if not isinstance(s1, (ast.Assign, ast.AugAssign,
+                                               ast.AnnAssign)):
+                            continue
+                        n += 1
+                        if norm(s1) != norm(s2):
+                            continue
+                        tg = s1.targets[0] if isinstance(
+                            s1, ast.Assign) else s1.target
+                        val = s1.value
+                        if val is None:
+                            continue
+                        tname = norm(tg)
+                        reads = {norm(x) for x in ast.walk(val)
+                                 if isinstance(x, (ast.Name, ast.Attribute,
+                                                   ast.Subscript))}
+                        if tname in reads:
+                            continue
+                        if isinstance(s1, ast.AugAssign) and not isinstance(
+                                s1.op, (ast.BitOr, ast.BitAnd)):
+                            continue
+                        hits.append((f, s2))
+    return n, hits
+
+
 # ---------------------------------------------------------------------------
 # loops
 
@@ -275,6 +316,13 @@ def battery(repo: Repo, ctx, rule: str, prefixes: Iterable[str],
                      f'before it except for {slip}' for f, s2, slip in
                      hits[:3]) + f' -- {consequence}',
            hits[0][0].loc if hits else '', sample=f'{n} mirrored pairs')
+    n, hits = duplicated_statements(repo, prefixes)
+    ctx.ob(rule, 'slips:duplicated-statement', not hits,
+           '; '.join(f'{f.qualname}: `{norm(s2)[:60]}` repeats the statement '
+                     f'before it and cannot have a second effect (sibling '
+                     f'operand never visited)' for f, s2 in hits[:3]) +
+           f' -- {consequence}', hits[0][0].loc if hits else '',
+           sample=f'{n} assignment pairs')
     n, hits = dropped_forwarding(repo, prefixes)
     ctx.ob(rule, 'slips:option-forwarding', not hits,
            '; '.join(f'{f.qualname} receives `{P}` but calls {cal.name} '
